@@ -4,6 +4,7 @@ package gosym
 
 import (
 	"fmt"
+	"unsafe"
 	"go/token"
 	"go/types"
 	"math"
@@ -787,6 +788,35 @@ func (i *interpreter) callBuiltin(caller *frame, callpos token.Pos, fn *ssa.Buil
 
 	case "ssa:deferstack":
 		return &caller.defers
+
+	// package unsafe: element pointers are real pointers into []value backing arrays
+	case "String":
+		n := int(i.intArg(args[1]))
+		p, _ := args[0].(*value)
+		if n == 0 || p == nil {
+			return ""
+		}
+		el := unsafe.Slice(p, n)
+		return string(bytesOf(i, []value(el)))
+	case "SliceData":
+		sl := args[0].([]value)
+		if cap(sl) == 0 {
+			return (*value)(nil)
+		}
+		return &sl[:1][0]
+	case "StringData":
+		b := fromBytes([]byte(args[0].(string)))
+		if len(b) == 0 {
+			return (*value)(nil)
+		}
+		return &b[0]
+	case "Slice":
+		n := int(i.intArg(args[1]))
+		p, _ := args[0].(*value)
+		if p == nil || n == 0 {
+			return []value(nil)
+		}
+		return []value(unsafe.Slice(p, n))
 	}
 	panic("unknown built-in: " + fn.Name())
 }
